@@ -106,6 +106,11 @@ def check_call(contract, args: dict, repo=None, quiet=True) -> RTResult:
         v = args[name]
         if isinstance(ty, T.OneOf):
             ty0 = _pick_alternative(ty, v)
+        if isinstance(ty0, T.ClassT):
+            # a classmethod's cls: the class the contract names (the real call goes through the class attribute, already bound)
+            st.env[name] = ty0.fresh(name)[0]
+            real[name] = None
+            continue
         if is_init and name == "self":
             # a constructor is replayed by calling the class: there is no object yet
             st.env[name] = lift(v if not isinstance(v, dict) else _DictView(v), ty0)
